@@ -23,22 +23,26 @@ KeptUnderOp(ds) == { c \in ds.comps : c.r \in {"I", "M", "V"} }
 (* kept, attributes dropped, a mono-measure result whose type changed is   *)
 (* renamed (bool_var, int_var, ...).                                       *)
 (***************************************************************************)
-MapMeasures(ds, newT(_), f(_, _)) ==
+\* comparison operators (=, <>, <, <=, >, >=, in, not_in, between) always rename a mono-measure to bool_var
+CmpOps == {"=", "<>", "<", "<=", ">", ">=", "in", "between"}
+MapMeasuresF(ds, newT(_), f(_, _), force) ==
     LET keep == KeptUnderOp(ds)
         mono == Cardinality(MeasOf(ds)) = 1
-        nm(c) == IF c.r = "M" /\ mono /\ TypeChanged(c.t, newT(c)) THEN VarNameOf(newT(c)) ELSE c.n
+        nm(c) == IF c.r = "M" /\ mono /\ (force \/ TypeChanged(c.t, newT(c))) THEN VarNameOf(newT(c)) ELSE c.n
         src(x) == CHOOSE c \in keep : nm(c) = x
     IN  [comps |-> { IF c.r = "M" THEN Comp(nm(c), "M", newT(c)) ELSE c : c \in keep },
          rows |-> { [x \in { nm(c) : c \in keep } |->
                         IF src(x).r = "M" THEN f(src(x), r) ELSE r[src(x).n]] : r \in ds.rows }]
 
+MapMeasures(ds, newT(_), f(_, _)) == MapMeasuresF(ds, newT, f, FALSE)
+
 UnDS(op, ds) == RaiseDS(MapMeasures(ds, LAMBDA c : UnType(op, c.t), LAMBDA c, r : Un(op, r[c.n])))
 
 \* dataset (op) scalar, left = TRUE when the dataset is the left operand
 BinDSSc(op, ds, s, left) ==
-    RaiseDS(MapMeasures(ds,
+    RaiseDS(MapMeasuresF(ds,
         LAMBDA c : IF left THEN BinType(op, c.t, s.t) ELSE BinType(op, s.t, c.t),
-        LAMBDA c, r : IF left THEN Bin(op, r[c.n], s.v) ELSE Bin(op, s.v, r[c.n])))
+        LAMBDA c, r : IF left THEN Bin(op, r[c.n], s.v) ELSE Bin(op, s.v, r[c.n]), op \in CmpOps))
 
 \* dataset (op) dataset: inner match on the common identifiers; one identifier set contains the
 \* other and the result has the larger one
@@ -53,7 +57,7 @@ BinDSDS(op, a, b) ==
         keep == { c \in base.comps : c.r \in {"I", "M"} }
         mono == Cardinality(MeasOf(base)) = 1
         newT(c) == BinType(op, TypeOfComp(a, c.n), TypeOfComp(b, c.n))
-        nm(c) == IF c.r = "M" /\ mono /\ TypeChanged(TypeOfComp(a, c.n), newT(c)) THEN VarNameOf(newT(c)) ELSE c.n
+        nm(c) == IF c.r = "M" /\ mono /\ (op \in CmpOps \/ TypeChanged(TypeOfComp(a, c.n), newT(c))) THEN VarNameOf(newT(c)) ELSE c.n
         src(x) == CHOOSE c \in keep : nm(c) = x
     IN  RaiseDS([comps |-> { IF c.r = "M" THEN Comp(nm(c), "M", newT(c)) ELSE c : c \in keep },
                  rows |-> { [x \in { nm(c) : c \in keep } |->
@@ -61,13 +65,13 @@ BinDSDS(op, a, b) ==
                                ELSE (IF useB THEN p[2] ELSE p[1])[src(x).n]] : p \in pairs }])
 
 FnDS(op, ds, args, nargs) ==
-    RaiseDS(MapMeasures(ds,
+    RaiseDS(MapMeasuresF(ds,
         LAMBDA c : FnType(op, <<c.t>>, nargs),
-        LAMBDA c, r : Fn(op, [i \in DOMAIN args |-> IF i = 1 THEN r[c.n] ELSE args[i]])))
+        LAMBDA c, r : Fn(op, [i \in DOMAIN args |-> IF i = 1 THEN r[c.n] ELSE args[i]]), op \in CmpOps))
 
 InDS(neg, ds, set) ==
-    MapMeasures(ds, LAMBDA c : "Boolean",
-                LAMBDA c, r : IF neg THEN NotInV(r[c.n], set) ELSE InV(r[c.n], set))
+    MapMeasuresF(ds, LAMBDA c : "Boolean",
+                 LAMBDA c, r : IF neg THEN NotInV(r[c.n], set) ELSE InV(r[c.n], set), TRUE)
 
 \* DS#comp : identifiers plus the selected component (a selected identifier or attribute is
 \* copied into a measure named after its type)
